@@ -264,10 +264,10 @@ def run(ctx):
     hi_ok = any('<=window[1]' in t for t in txts)
     for node in walk_no_nested(writer):
         # chained form  w_min - tol <= pH <= w_max + tol
-        if isinstance(node, ast.Compare) and len(node.ops) == 2 \
+        if isinstance(node, ast.Compare) and len(node.ops) in (1, 2) \
                 and all(isinstance(o, ast.LtE) for o in node.ops):
             lo_t = wcan.text(node.left).replace(' ', '')
-            hi_t = wcan.text(node.comparators[1]).replace(' ', '')
+            hi_t = wcan.text(node.comparators[-1]).replace(' ', '')
             if '[0]' in lo_t and W in lo_t:
                 lo_ok = True
             if '[1]' in hi_t and W in hi_t:
@@ -275,6 +275,40 @@ def run(ctx):
     ctx.ob('C10.R2', 'window:inclusive-bounds', lo_ok and hi_ok,
            'rows are printed for window[0] <= pH <= window[1], both ends included (%s)' % txts,
            out, wtests[0] if wtests else writer)
+
+    # ... and they decide: every statement that emits a profile row stands under
+    # the bounds test itself (not under a row count derived from the bounds by a
+    # float division: int((w_max - w_min)/w_step) is 6 for 0.7/0.1)
+    def is_bounds_fact(e):
+        if not isinstance(e, ast.Compare) or not all(isinstance(o, (ast.Lt, ast.LtE)) for o in e.ops):
+            return set()
+        sides = [wcan.text(x).replace(' ', '') for x in [e.left] + e.comparators]
+        got = set()
+        if len(sides) >= 2 and W in sides[0] and '[0]' in sides[0] and '[1]' not in sides[0]:
+            got.add('lo')
+        if len(sides) >= 2 and W in sides[-1] and '[1]' in sides[-1] and '[0]' not in sides[-1]:
+            got.add('hi')
+        return got
+    rows = []
+    for lp in walk_no_nested(writer):
+        if isinstance(lp, ast.For) and isinstance(lp.target, (ast.Tuple, ast.List)) and len(lp.target.elts) == 2 \
+                and all(isinstance(e, ast.Name) for e in lp.target.elts):
+            phv = lp.target.elts[0].id
+            for st in ast.walk(lp):
+                if isinstance(st, ast.AugAssign) and isinstance(st.op, ast.Add) \
+                        and any(isinstance(n, ast.Name) and n.id == phv for n in ast.walk(st.value)) \
+                        and any(isinstance(n, ast.Call) and last_attr(n) == 'format' or isinstance(n, ast.JoinedStr)
+                                for n in ast.walk(st.value)):
+                    held = set()
+                    for e, pol in facts_at(st, writer):
+                        if pol:
+                            held |= is_bounds_fact(e)
+                    rows.append((st, held))
+    ctx.ob('C10.R2', 'window:bounds-decide-each-row', bool(rows) and all(h == {'lo', 'hi'} for _s, h in rows),
+           'every statement that prints a profile row stands under window[0] <= pH and pH <= '
+           'window[1] themselves (%d emitting statements; bounds held: %s)'
+           % (len(rows), [sorted(h) for _s, h in rows]), out,
+           next((s_ for s_, h in rows if h != {'lo', 'hi'}), writer))
 
     common.check_ph_label_precision(ctx, 'C10.R2', prog, ['get_folding_profile_section',
                                                           'get_charge_profile_section'])
@@ -603,6 +637,26 @@ def run(ctx):
         try_fold(effective(first_ret.body)[0].value) == 0
     ctx.ob('C10.R4', 'folding-energy:zero-for-non-titratable', zero_ok,
            'non-titratable groups contribute exactly 0', gmod2, first_ret or fe)
+    # ... and only those: the charge curves add up every titratable group
+    # (charge-sum rule), so proton linkage d(dG)/dpH = 1.36 (Qf - Qu) needs the
+    # energy of every titratable group as well.  Every return of the function
+    # other than the computed term stands under `not self.titratable` alone.
+    extra = []
+    for r in walk_no_nested(fe):
+        if not isinstance(r, ast.Return):
+            continue
+        facts = [(norm(e), p) for e, p in facts_at(r, fe)]
+        about_group = [(t, p) for t, p in facts if 'self.' in t and t not in ('ph is None', 'reference is None')]
+        constant = r.value is None or try_fold(r.value) is not None
+        allowed = ([('self.titratable', False)], [('not self.titratable', True)]) if constant \
+            else ([('self.titratable', True)], [('not self.titratable', False)], [])
+        if (about_group or constant) and about_group not in allowed:
+            extra.append((r, about_group))
+    ctx.ob('C10.R4', 'folding-energy:zero-only-for-non-titratable', not extra,
+           'no other state of the group (penalised, coupled, buried ...) short-cuts its folding '
+           'energy: the charge curves count every titratable group, so would-be exceptions break '
+           'the linkage between the two profiles (returns under: %s)'
+           % [a for _r, a in extra][:2], gmod2, extra[0][0] if extra else fe)
     # ph default wiring: ph None -> parameters.pH
     cc = prog.mod('conformation_container')
     cfe = cc.func('ConformationContainer.calculate_folding_energy')
